@@ -81,6 +81,7 @@ def run_cases(b, cases, workdir, fmt=b"%{uid}/%{euid}:%{cmdline}"):
                         res[cur]["other"].append((sn, recs[0][:60]))
             elif ev == "child":
                 res[cur]["signal"] = e.get("signal")
+                res[cur]["timedout"] = e.get("timedout")
             elif ev == "drain" and e.get("label") == "post:" + cur:
                 for sn, data in e["sinks"].items():
                     recs = cf.frame_records(sn, data)
@@ -100,6 +101,8 @@ def judge(o, expect_pass):
     """-> problem string or None"""
     if o is None:
         return "no observation"
+    if o.get("timedout"):
+        return "the call did not return (the process was still inside it when the harness watchdog killed it)"
     if o.get("signal"):
         return "the calling process died with signal %s" % o["signal"]
     if o["errors"]:
